@@ -1,5 +1,141 @@
-/- Engine `auto` (C19): not built yet. -/
+/-
+  Engine `auto` (C19).  One op line = one whole operation history (format: see
+  harness/auto.cpp).  Output: one segment per operation, joined by '|':
+    <emitted messages>;<learning,midi_cc,midi_nrpn of every slot>
+  A float that went through expf is printed as `~,x=<bits of the argument>`: the model does
+  not compute expf (the property module masks the implementation's value the same way
+  before the comparison and checks it against the property's tolerance itself).
+-/
+import RtoscModel.Auto
+import RtoscModel.AutoFloat
 import Driver.Common
 namespace Driver.AutoEngine
-def engine : Driver.Engine := Driver.stateless (fun _ => "unimplemented")
+open Rtosc Rtosc.Auto Rtosc.Auto.IEEE
+
+def parseInt (s : String) : Option Int :=
+  if s.startsWith "-" then (s.drop 1).toNat?.map (fun n => -(n : Int)) else s.toNat?.map (fun n => (n : Int))
+
+/-- `[-]digits[.digits]` as an exact rational -/
+def parseDec (s : String) : Option Rat :=
+  let neg := s.startsWith "-"
+  let body := if neg then (s.drop 1).toString else s
+  match body.splitOn "." with
+  | [a] => a.toNat?.map fun n => if neg then -(n : Rat) else (n : Rat)
+  | [a, b] =>
+    match a.toNat?, b.toNat? with
+    | some n, some f =>
+      let v : Rat := (n : Rat) + (f : Rat) / ((10 ^ b.length : Nat) : Rat)
+      some (if neg then -v else v)
+    | _, _ => none
+  | _ => none
+
+/-- atof of a metadata value: `-` = key absent -/
+def parseMeta (s : String) : Option (Option Rat) :=
+  if s = "-" then some none else (parseDec s).map (fun r => some (rnd64 r))
+
+def parseBits (s : String) : Option Rat :=
+  if s.length ≠ 8 then none
+  else match ofHexChars s.toList with
+    | some [a, b, c, d] => ofBits32 (a.toNat * 2 ^ 24 + b.toNat * 2 ^ 16 + c.toNat * 2 ^ 8 + d.toNat)
+    | _ => none
+
+def hex32 (n : Nat) : String :=
+  toHex [UInt8.ofNat (n / 2 ^ 24), UInt8.ofNat (n / 2 ^ 16), UInt8.ofNat (n / 2 ^ 8), UInt8.ofNat n]
+
+def portPath (k : Nat) (nports : Nat) : Bytes :=
+  if k < nports then [47, 112, UInt8.ofNat (97 + k)] else [47, 122, 122]
+
+structure PortDecl where
+  info : PortInfo Rat
+  logTab : List (Rat × Rat)
+
+def parsePort (w : String) : Option PortDecl :=
+  match w.splitOn ":" with
+  | "P" :: kind :: mn :: mx :: sc :: lm :: fl :: rest =>
+    match parseMeta mn, parseMeta mx, parseMeta lm with
+    | some mn, some mx, some lm =>
+      let info : PortInfo Rat :=
+        { hasF := kind = "f", hasT := kind = "T", min := mn, max := mx, logmin := lm,
+          scaleLog := sc = "log", internal := fl = "internal", noLearn := fl = "nolearn" }
+      -- table of the two logf results for a log-scale port
+      let lo : Option Rat := match lm with
+        | some l => some (rnd32 l)
+        | none => mn.map rnd32
+      let hi : Option Rat := mx.map rnd32
+      let tab : List (Rat × Rat) :=
+        match rest with
+        | [a, b] =>
+          match lo, hi, parseBits a, parseBits b with
+          | some lo, some hi, some la, some lb => [(lo, la), (hi, lb)]
+          | _, _, _, _ => []
+        | _ => []
+      if sc = "log" && tab.isEmpty && kind ≠ "T" && mn.isSome && mx.isSome then none
+      else some { info := info, logTab := tab }
+    | _, _, _ => none
+  | _ => none
+
+def showVal (v : Val Rat) (viaExp : Bool) : String :=
+  match v with
+  | .none => ""
+  | .int n => "," ++ toString n
+  | .flt x => if viaExp then ",~,x=" ++ hex32 (toBits32 x) else "," ++ hex32 (toBits32 x)
+
+def showMsg (m : Msg Rat) : String :=
+  match m.val with
+  | .none => toHex m.addr ++ "," ++ String.singleton m.ty
+  | v => toHex m.addr ++ "," ++ String.singleton m.ty ++ showVal v m.viaExp
+
+def showState (m : Mgr Rat) : String :=
+  "/".intercalate (m.slots.map fun sl => s!"{sl.learning},{sl.midiCC},{sl.midiNrpn}")
+
+def parseOp (ports : List (PortInfo Rat)) (w : String) : Option (Op Rat) :=
+  let portOf (k : Int) : Option (PortInfo Rat) := if k < 0 then none else ports[k.toNat]?
+  let pathOf (k : Int) : Bytes := if k < 0 then [47, 122, 122] else portPath k.toNat ports.length
+  match w.splitOn ":" with
+  | ["B", s, p, l] => do
+    let s ← parseInt s; let p ← parseInt p; let l ← parseInt l
+    pure (.bind s (pathOf p) (portOf p) (l ≠ 0))
+  | ["H", s, j, p] => do
+    let s ← parseInt s; let j ← parseInt j; let p ← parseInt p
+    pure (.setPath s j (pathOf p) (portOf p))
+  | ["C", s] => do pure (.clearSlot (← parseInt s))
+  | ["D", s, j] => do pure (.clearSub (← parseInt s) (← parseInt j))
+  | ["G", s, j, x] => do pure (.gain (← parseInt s) (← parseInt j) (← parseBits x))
+  | ["O", s, j, x] => do pure (.offset (← parseInt s) (← parseInt j) (← parseBits x))
+  | ["S", s, x] => do pure (.setSlot (← parseInt s) (← parseBits x))
+  | ["U", s, j, x] => do pure (.setSub (← parseInt s) (← parseInt j) (← parseBits x))
+  | ["M", c, t, v] => do pure (.midi (← parseInt c) (← parseInt t) (← parseInt v))
+  | _ => none
+
+def runOps (A : Arith Rat) (ports : List (PortInfo Rat)) : Mgr Rat → List String → List String → String
+  | _, [], acc => if acc.isEmpty then "-" else "|".intercalate acc.reverse
+  | m, w :: ws, acc =>
+    match parseOp ports w with
+    | none => "bad-op"
+    | some op =>
+      match step A m op with
+      | none => "oob"
+      | some (m1, ms) =>
+        runOps A ports m1 ws ((" ".intercalate (ms.map showMsg) ++ ";" ++ showState m1) :: acc)
+
+def stepLine (line : String) : String :=
+  match words line with
+  | [] => "bad-op"
+  | hd :: rest =>
+    match hd.splitOn ":" with
+    | ["N", ns, ps] =>
+      match ns.toNat?, ps.toNat? with
+      | some ns, some ps =>
+        if ns < 1 || ns > 64 || ps < 1 || ps > 16 then "bad-op" else
+        let pw := rest.takeWhile (·.startsWith "P")
+        let ow := rest.dropWhile (·.startsWith "P")
+        let decls := pw.map parsePort
+        if decls.any Option.isNone || decls.length > 26 then "bad-op" else
+        let ds := decls.filterMap id
+        let A := ieee (ds.flatMap (·.logTab))
+        runOps A (ds.map (·.info)) (Mgr.init A ns ps) ow []
+      | _, _ => "bad-op"
+    | _ => "bad-op"
+
+def engine : Driver.Engine := Driver.stateless stepLine
 end Driver.AutoEngine
